@@ -570,3 +570,58 @@ pub fn stress(a: &HashMap<String, String>) -> i32 {
     write_lines(out, &evs);
     0
 }
+
+/// Sentences with a run of more than 65535 category-sharing characters (positions and run lengths
+/// are not 16-bit quantities).  Far too long to be re-derived by TLC; the harness checks the
+/// partition clause of C01 itself (tokens in order, contiguous or separated by spaces only, surfaces
+/// and byte ranges equal to the slices of the input) and logs the verdict.
+pub fn record_bigsent(a: &HashMap<String, String>) -> i32 {
+    let out = a.get("out").expect("--out");
+    let lex = "東京,0,0,1,T\n都,0,0,1,M\n";
+    let chr = "DEFAULT 0 1 0\nSPACE 0 1 0\nKANJI 0 0 2\n0x0020 SPACE\n0x4E00..0x9FFF KANJI\n";
+    let unk = "DEFAULT,0,0,10,d\nSPACE,0,0,10,s\nKANJI,0,0,10,k\n";
+    let mat = "1 1\n0 0 0\n";
+    let mut evs: Vec<Value> = vec![];
+    for (isp, filler, n) in [(false, 'あ', 70000usize), (true, ' ', 65536), (false, ' ', 65537), (true, 'あ', 65536)] {
+        let text: String = format!("東京{}都", std::iter::repeat(filler).take(n).collect::<String>());
+        let r = catch_unwind(AssertUnwindSafe(|| {
+            let dict = vibrato::SystemDictionaryBuilder::from_readers(lex.as_bytes(), mat.as_bytes(), chr.as_bytes(), unk.as_bytes()).expect("dictionary");
+            let tok = Tokenizer::new(dict).ignore_space(isp).expect("SPACE is defined");
+            let mut w = tok.new_worker();
+            w.reset_sentence(&text);
+            w.tokenize();
+            let chars: Vec<char> = text.chars().collect();
+            let mut ok = true;
+            let (mut pos, mut bpos) = (0usize, 0usize);
+            for i in 0..w.num_tokens() {
+                let t = w.token(i);
+                let (rc, rb) = (t.range_char(), t.range_byte());
+                // a gap is allowed only under ignore_space and only over spaces
+                while pos < rc.start {
+                    ok &= isp && chars[pos] == ' ';
+                    bpos += chars[pos].len_utf8();
+                    pos += 1;
+                }
+                ok &= rc.start == pos && rc.end > rc.start && rc.end <= chars.len() && rb.start == bpos;
+                let surf: String = chars[rc.start..rc.end.min(chars.len())].iter().collect();
+                ok &= t.surface() == surf && rb.end == rb.start + surf.len();
+                pos = rc.end;
+                bpos = rb.end;
+            }
+            while pos < chars.len() {
+                ok &= isp && chars[pos] == ' ';
+                pos += 1;
+            }
+            (w.num_tokens(), ok)
+        }));
+        evs.push(match r {
+            Ok((ntok, ok)) => json!({"ev": "bigsent", "isp": isp, "filler": filler as u32, "n": n, "panic": false, "ntok": ntok, "partition_ok": ok}),
+            Err(_) => json!({"ev": "bigsent", "isp": isp, "filler": filler as u32, "n": n, "panic": true, "ntok": 0, "partition_ok": false}),
+        });
+    }
+    let mut f = std::io::BufWriter::new(std::fs::File::create(out).expect("create"));
+    for e in &evs {
+        writeln!(f, "{}", e).unwrap();
+    }
+    0
+}
